@@ -139,14 +139,19 @@ def run_turn_guarded(world, *a, **kw):
     """rw.run_turn with a wall-clock horizon (a turn that never returns is an observation, not a hung check)"""
     import signal
     signal.signal(signal.SIGALRM, _on_alarm)
+    signal.signal(signal.SIGVTALRM, _on_alarm)
+    # two horizons: TURN_HORIZON_S of CPU time of this process (a turn that spins; independent of the load of the machine)
+    # and a wall-clock horizon several times as long (a turn that waits for ever without using the CPU).
     # repeating: an exception raised from a signal handler can land in code that swallows it (asyncio's Handle._run
     # reports a BaseException of a callback to the loop's exception handler and goes on) - it is raised again 3 s later
-    signal.setitimer(signal.ITIMER_REAL, TURN_HORIZON_S, 3)
+    signal.setitimer(signal.ITIMER_VIRTUAL, TURN_HORIZON_S, 3)
+    signal.setitimer(signal.ITIMER_REAL, 6 * TURN_HORIZON_S, 3)
     _IN_TURN[0] = True
     try:
         return rw.run_turn(world, *a, **kw)
     finally:
         _IN_TURN[0] = False
+        signal.setitimer(signal.ITIMER_VIRTUAL, 0)
         signal.setitimer(signal.ITIMER_REAL, 0)
 
 
@@ -154,7 +159,7 @@ def check_reply(turn, hostile_list, user_text):
     """returns list of (sig, what)"""
     out = []
     if isinstance(turn.exc, TurnTimeout):
-        out.append(("generate-does-not-return", f"generate() was still running after {TURN_HORIZON_S} s"))
+        out.append(("generate-does-not-return", f"generate() was still running after {TURN_HORIZON_S} s of CPU time (or {6 * TURN_HORIZON_S} s of wall-clock time)"))
         return out
     if turn.exc is not None:
         e = turn.exc
